@@ -52,7 +52,9 @@ pub fn vacuum_in_place(
     let stats = pager.write_vacuum_copy(&tmp_path, &reachable)?;
     drop(pager);
 
+    vio!(Rename { from: ndb_path.to_path_buf(), to: backup_path.clone() });
     std::fs::rename(ndb_path, &backup_path).map_err(Error::Io)?;
+    vio!(Rename { from: tmp_path.clone(), to: ndb_path.to_path_buf() });
     if let Err(e) = std::fs::rename(&tmp_path, ndb_path) {
         let _ = std::fs::rename(&backup_path, ndb_path);
         let _ = std::fs::remove_file(&tmp_path);
